@@ -107,7 +107,7 @@ func checkC06(job *Job, res *Result) {
 	if d, ok := job.Params["depth"].(float64); ok {
 		depth = int(d)
 	}
-	inits := []string{"empty", "prefix", "unrelated", "emptied", "big-empty", "big-diverged", "aligned", "respvalues", "only-channels"}
+	inits := []string{"empty", "prefix", "unrelated", "emptied", "big-empty", "big-diverged", "aligned", "respvalues", "only-channels", "benign-failure"}
 	if job.Tier == "thorough" {
 		inits = append(inits, "big-prefix", "big-unrelated")
 	}
@@ -158,6 +158,16 @@ func checkC06(job *Job, res *Result) {
 				r := &c06Run{x: x, big: big}
 				vnet.Window = 65536 // TCP-like back-pressure between the two servers
 				ldir, fdir := x.dir+"/L", x.dir+"/F"
+				if init == "benign-failure" {
+					// the leader's log holds a command that fails harmlessly when it is replayed
+					// (an FSET on an id that is gone: what a rewrite race leaves behind)
+					os.MkdirAll(ldir, 0700)
+					var pre []byte
+					pre = append(pre, respCmd("SET", "lk", "p0", "POINT", "1", "1")...)
+					pre = append(pre, respCmd("FSET", "lk", "no-such-id", "speed", "1")...)
+					pre = append(pre, respCmd("SET", "lk", "p1", "POINT", "2", "2")...)
+					os.WriteFile(filepath.Join(ldir, "appendonly.aof"), pre, 0600)
+				}
 				r.L = x.Start("L", ldir, 9001, nil)
 				r.lc = x.Dial(r.L.Addr)
 				isBig := strings.HasPrefix(init, "big-")
